@@ -527,7 +527,9 @@ where
         offset: &Offset,
     ) -> Result<ResultTextSelection<'store>, StamError> {
         let resource = self.resource(); //courtesy of ResultItem
-        let offset = self.absolute_offset(&offset)?; //turns the relative offset into an absolute one (i.e. offsets in TextResource)
+        //resolve the relative offset against this text selection (this checks that it fits inside it) and
+        //turn it into an absolute one (i.e. offsets in TextResource)
+        let offset: Offset = self.as_ref().textselection_by_offset(offset)?.into();
         resource.textselection(&offset)
     }
 }
@@ -730,7 +732,9 @@ where
         &'slf self,
         offset: &Offset,
     ) -> Result<ResultTextSelection<'store>, StamError> {
-        let offset = self.absolute_offset(&offset)?; //turns the relative offset into an absolute one (i.e. offsets in TextResource)
+        //resolve the relative offset against this text selection (this checks that it fits inside it) and
+        //turn it into an absolute one (i.e. offsets in TextResource)
+        let offset: Offset = self.inner().textselection_by_offset(offset)?.into();
         self.resource().textselection(&offset)
     }
 }
